@@ -9,15 +9,20 @@
 //   - in the struct, sync.Mutex / sync.RWMutex become sched.Mutex / sched.RWMutex (same API;
 //     under a controller every Lock/RLock/Unlock/RUnlock is a scheduling point and an event);
 //   - in every method of the type (closures included), with r the receiver:
-//       r.f                  (f a data field, read)      ->  sched.Get(id(f), r.f)
-//       r.f = e                                          ->  r.f = sched.Put(id(f), e')
-//       r.f op= e, r.f++                                 ->  r.f = sched.Put(id(f), sched.Get(id(f), r.f) op e')
-//       r.f, x = g()                                     ->  ...; sched.Put(id(f), r.f)
-//       &r.f                                             ->  sched.Addr(&r.f)        (logged as untranslated)
-//       X.M(args)  with X an object behind a pointer field
-//                                                        ->  sched.Obj(X', "M").M(args')
-//       X.Clone()                                        ->  sched.Res(sched.Obj(X', "Clone").Clone())
-//       X.g = e   (X such an object)                     ->  sched.Obj(X', "=").g = e'
+//     r.f                  (f a data field, read)      ->  sched.Get(id(f), r.f)
+//     r.f = e                                          ->  r.f = sched.Put(id(f), e')
+//     r.f op= e, r.f++                                 ->  r.f = sched.Put(id(f), sched.Get(id(f), r.f) op e')
+//     r.f, x = g()                                     ->  ...; sched.Put(id(f), r.f)
+//     &r.f                                             ->  sched.Addr(&r.f)        (logged as untranslated)
+//     X.M(args)  with X an object behind a pointer field
+//     ->  sched.Obj(X', "M").M(args')
+//     X.Clone()                                        ->  sched.Res(sched.Obj(X', "Clone").Clone())
+//     X.g = e   (X such an object)                     ->  sched.Obj(X', "=").g = e'
+//     r.f.g, r.f.M(..), r.f[i]  with f neither pointer, slice, map, chan, func nor interface literal type
+//     ->  sched.GetP(id(f), &r.f).g ...   (no copy of the field)
+//     r.a.Load() / r.a.Store(e)  with a of type sync/atomic.Pointer[T]
+//     ->  sched.ALoad(id(a), lock(a), r.a.Load()) / r.a.Store(sched.AStore(id(a), lock(a), e'))
+//     (lock(a): the pseudo lock "atomic(a)" the skeleton uses for the atomicity of one access)
 //     "an object behind a pointer field": r.p for a pointer field p, a parameter whose declared type
 //     is textually the type of such a field, a local defined from such an expression or from its Clone().
 //     Fields are numbered in declaration order, locks and data fields separately (as the skeleton does).
@@ -48,6 +53,8 @@ type instr struct {
 	varID    map[string]int
 	ptrType  map[string]string // pointer data field -> printed type
 	treeTy   map[string]bool   // printed types of the pointer fields
+	copyable map[string]bool   // data field whose value may be copied freely (pointer, slice, map, chan, func, interface literal)
+	atomLock map[string]int    // sync/atomic.Pointer[T] field -> its pseudo lock
 
 	recv  *ast.Object
 	env   map[*ast.Object]bool
@@ -120,9 +127,51 @@ func (x *instr) isTree(e ast.Expr) bool {
 		if sel, ok := v.Fun.(*ast.SelectorExpr); ok && sel.Sel.Name == "Clone" && len(v.Args) == 0 {
 			return x.isTree(sel.X)
 		}
+
+		if _, ok := x.atomicCall(v, "Load", 0); ok {
+			return true
+		}
 	}
 
 	return false
+}
+
+// atomicCall: call is `recv.a.<meth>(..)` with a an atomic pointer field and the given number of arguments
+func (x *instr) atomicCall(call *ast.CallExpr, meth string, nargs int) (string, bool) {
+	sel, ok := call.Fun.(*ast.SelectorExpr)
+	if !ok || sel.Sel.Name != meth || len(call.Args) != nargs {
+		return "", false
+	}
+
+	f, ok := x.recvField(sel.X)
+	if !ok {
+		return "", false
+	}
+
+	_, isAtomic := x.atomLock[f]
+
+	return f, isAtomic
+}
+
+// deep: recv.f used as the operand of a selector / index / method call.  A field that may be copied is read as a
+// value; any other field (struct, array, named type, sync.Map, ...) is reached through its address, so that the
+// instrumented program does not operate on a copy.
+func (x *instr) deep(e ast.Expr) (ast.Expr, bool) {
+	f, ok := x.recvField(e)
+	if !ok {
+		return nil, false
+	}
+
+	id, isData := x.varID[f]
+	if !isData {
+		return nil, false
+	}
+
+	if x.copyable[f] {
+		return schedCall("Get", intLit(id), e), true
+	}
+
+	return schedCall("GetP", intLit(id), &ast.UnaryExpr{Op: token.AND, X: e}), true
 }
 
 func (x *instr) exprs(es []ast.Expr) {
@@ -150,8 +199,22 @@ func (x *instr) expr(e ast.Expr) ast.Expr {
 			return v // method value / unknown field
 		}
 
-		v.X = x.expr(v.X)
+		if d, ok := x.deep(v.X); ok {
+			v.X = d
+		} else {
+			v.X = x.expr(v.X)
+		}
 	case *ast.CallExpr:
+		if f, ok := x.atomicCall(v, "Load", 0); ok {
+			return schedCall("ALoad", intLit(x.varID[f]), intLit(x.atomLock[f]), v)
+		}
+
+		if f, ok := x.atomicCall(v, "Store", 1); ok {
+			v.Args[0] = schedCall("AStore", intLit(x.varID[f]), intLit(x.atomLock[f]), x.expr(v.Args[0]))
+
+			return v
+		}
+
 		if sel, ok := v.Fun.(*ast.SelectorExpr); ok {
 			if x.lockField(sel.X) {
 				x.exprs(v.Args)
@@ -160,7 +223,12 @@ func (x *instr) expr(e ast.Expr) ast.Expr {
 			}
 
 			tree := x.isTree(sel.X)
-			sel.X = x.expr(sel.X)
+
+			if d, ok := x.deep(sel.X); ok {
+				sel.X = d
+			} else {
+				sel.X = x.expr(sel.X)
+			}
 
 			if tree {
 				sel.X = schedCall("Obj", sel.X, strLit(sel.Sel.Name))
@@ -195,12 +263,22 @@ func (x *instr) expr(e ast.Expr) ast.Expr {
 	case *ast.StarExpr:
 		v.X = x.expr(v.X)
 	case *ast.IndexExpr:
-		v.X = x.expr(v.X)
+		if d, ok := x.deep(v.X); ok {
+			v.X = d
+		} else {
+			v.X = x.expr(v.X)
+		}
+
 		v.Index = x.expr(v.Index)
 	case *ast.IndexListExpr:
 		v.X = x.expr(v.X)
 	case *ast.SliceExpr:
-		v.X = x.expr(v.X)
+		if d, ok := x.deep(v.X); ok {
+			v.X = d
+		} else {
+			v.X = x.expr(v.X)
+		}
+
 		v.Low = x.expr(v.Low)
 		v.High = x.expr(v.High)
 		v.Max = x.expr(v.Max)
@@ -251,11 +329,43 @@ func rootOf(e ast.Expr) ast.Expr {
 	}
 }
 
+// deepRootVar: the assignment target e is reached THROUGH the plain (non-pointer) data field recv.f (recv.f.g,
+// recv.f[i], ...): the statement writes the field's value
+func (x *instr) deepRootVar(e ast.Expr) (int, bool) {
+	for {
+		switch v := e.(type) {
+		case *ast.SelectorExpr:
+			if f, ok := x.recvField(v); ok {
+				id, isData := x.varID[f]
+				_, isPtr := x.ptrType[f]
+				_, isAtomic := x.atomLock[f]
+
+				return id, isData && !isPtr && !isAtomic
+			}
+
+			e = v.X
+		case *ast.IndexExpr:
+			e = v.X
+		case *ast.StarExpr:
+			e = v.X
+		case *ast.ParenExpr:
+			e = v.X
+		default:
+			return 0, false
+		}
+	}
+}
+
 // lhs: an assignment target that is NOT exactly a guarded data field
 func (x *instr) lhs(e ast.Expr) ast.Expr {
 	switch v := e.(type) {
 	case *ast.IndexExpr:
-		v.X = x.expr(v.X)
+		if d, ok := x.deep(v.X); ok {
+			v.X = d
+		} else {
+			v.X = x.expr(v.X)
+		}
+
 		v.Index = x.expr(v.Index)
 	case *ast.SelectorExpr:
 		if x.lockField(v) {
@@ -263,7 +373,12 @@ func (x *instr) lhs(e ast.Expr) ast.Expr {
 		}
 
 		tree := x.isTree(v.X)
-		v.X = x.expr(v.X)
+
+		if d, ok := x.deep(v.X); ok {
+			v.X = d
+		} else {
+			v.X = x.expr(v.X)
+		}
 
 		if tree {
 			v.X = schedCall("Obj", v.X, strLit("="))
@@ -383,6 +498,10 @@ func (x *instr) stmt(s ast.Stmt) []ast.Stmt {
 
 			switch {
 			case !isData:
+				if vid, ok := x.deepRootVar(l); ok {
+					after = append(after, &ast.ExprStmt{X: schedCall("PutP", intLit(vid))})
+				}
+
 				v.Lhs[i] = x.lhs(l)
 			case same && v.Tok == token.ASSIGN:
 				v.Rhs[i] = schedCall("Put", intLit(id), v.Rhs[i])
@@ -412,7 +531,12 @@ func (x *instr) stmt(s ast.Stmt) []ast.Stmt {
 			}}
 		}
 
+		vid, through := x.deepRootVar(v.X)
 		v.X = x.lhs(v.X)
+
+		if through {
+			return []ast.Stmt{v, &ast.ExprStmt{X: schedCall("PutP", intLit(vid))}}
+		}
 	case *ast.DeclStmt:
 		if gd, ok := v.Decl.(*ast.GenDecl); ok {
 			for _, sp := range gd.Specs {
@@ -536,11 +660,25 @@ func main() {
 		fail("parse %s: %v", path, err)
 	}
 
-	x := &instr{typeName: *typ, lockID: map[string]int{}, varID: map[string]int{}, ptrType: map[string]string{}, treeTy: map[string]bool{}}
+	x := &instr{
+		typeName: *typ, lockID: map[string]int{}, varID: map[string]int{}, ptrType: map[string]string{}, treeTy: map[string]bool{},
+		copyable: map[string]bool{}, atomLock: map[string]int{},
+	}
 
-	var syncSpec *ast.ImportSpec
+	var (
+		syncSpec   *ast.ImportSpec
+		atomicName string
+		atomics    []string
+	)
 
 	for _, im := range f.Imports {
+		if strings.Trim(im.Path.Value, `"`) == "sync/atomic" {
+			atomicName = "atomic"
+			if im.Name != nil {
+				atomicName = im.Name.Name
+			}
+		}
+
 		if strings.Trim(im.Path.Value, `"`) == "sync" {
 			x.syncName = "sync"
 			if im.Name != nil {
@@ -602,13 +740,34 @@ func main() {
 			x.varID[n] = len(jo.Vars)
 			jo.Vars = append(jo.Vars, n)
 
-			if _, ok := fld.Type.(*ast.StarExpr); ok {
+			switch ft := fld.Type.(type) {
+			case *ast.StarExpr:
 				ts := types.ExprString(fld.Type)
 				x.ptrType[n] = ts
 				x.treeTy[ts] = true
+				x.copyable[n] = true
 				jo.PtrVars = append(jo.PtrVars, n)
+			case *ast.ArrayType:
+				x.copyable[n] = ft.Len == nil // a slice
+			case *ast.MapType, *ast.ChanType, *ast.FuncType, *ast.InterfaceType:
+				x.copyable[n] = true
+			case *ast.IndexExpr: // sync/atomic.Pointer[T]
+				if sel, ok := ft.X.(*ast.SelectorExpr); ok && sel.Sel.Name == "Pointer" {
+					if id, ok := sel.X.(*ast.Ident); ok && atomicName != "" && id.Name == atomicName {
+						atomics = append(atomics, n)
+						x.treeTy["*"+types.ExprString(ft.Index)] = true
+						jo.PtrVars = append(jo.PtrVars, n)
+					}
+				}
 			}
 		}
+	}
+
+	// one pseudo lock per atomic pointer field, numbered after the mutexes (as the skeleton does)
+	for _, n := range atomics {
+		x.atomLock[n] = len(jo.Locks)
+		jo.Locks = append(jo.Locks, "atomic("+n+")")
+		jo.LockKind = append(jo.LockKind, "RWMutex")
 	}
 
 	// --- the methods
